@@ -158,3 +158,54 @@ Example C18_example_dat :
   save 0%Z [[1; 2; 3]; [11; 12; 13]]%Z = [1; 11; 2; 12; 3; 13]%Z /\
   load 0%Z 2 [1; 11; 2; 12; 3; 13]%Z = [[1; 2; 3]; [11; 12; 13]]%Z.
 Proof. vm_compute. split; reflexivity. Qed.
+
+(* ---- repairs found by the independent hunt (2026-10): the model describes the code AFTER them ---- *)
+(* axis = -1 (data_split(d, b, axis=-1) / data_merge of the pieces with axis=-1): a 2-D array as the list of its rows;
+   splitting along the last axis and concatenating along the last axis reproduces the array for every
+   batch size and any number of rows.  data_merge passes `axis` down to arrays at every nesting level since the
+   repair (trees: the theorems above with "row" = slice along the split axis). *)
+Theorem C18_split_merge_last_axis :
+  forall b n (m : mat), 0 < b -> 0 < n -> m <> [] -> (forall r, In r m -> length r = n) ->
+    concat_last (split_last b m) = m.
+Proof. exact split_concat_last_id. Qed.
+Print Assumptions C18_split_merge_last_axis.
+(* before it, arrays inside a dict / list / tuple were concatenated along axis 0 whatever `axis` said *)
+Theorem C18_merge_axis_old_refuted :
+  let m := [[1; 2; 3; 4]; [11; 12; 13; 14]]%Z in
+  concat_first (split_last 2 m) = [[1; 2]; [11; 12]; [3; 4]; [13; 14]]%Z /\
+  concat_first (split_last 2 m) <> m /\ concat_last (split_last 2 m) = m.
+Proof. exact merge_axis_old_refuted. Qed.
+Print Assumptions C18_merge_axis_old_refuted.
+
+(* LazyFile(x) = LazyCall(identity, x): lazy = eager with extra entries, on every pass *)
+Theorem C18_lazyfile_eq_eager :
+  forall mx b n x extra, 0 < b -> 0 < n -> uniform n x -> has_leaf x = true -> uniform n extra ->
+    merge_all (lazy_batches (fun d => d) mx b x extra) = Some (lazy_eval (fun d => d) x extra).
+Proof. exact lazyfile_eq_eager. Qed.
+Print Assumptions C18_lazyfile_eq_eager.
+(* the old LazyFile.eval (x alone) and the old repeated as_dataset (bare x batches) lost the extra entries *)
+Theorem C18_lazyfile_old_refuted :
+  uniform 3 lf_x /\ uniform 3 lf_extra /\ has_leaf lf_x = true /\
+  merge_all (lazy_batches (fun d => d) 1000 2 lf_x lf_extra) <> Some (lazyfile_eval_old lf_x lf_extra) /\
+  merge_all (lazyfile_batches_again_old 1000 2 lf_x lf_extra) <> merge_all (lazy_batches (fun d => d) 1000 2 lf_x lf_extra) /\
+  merge_all (lazy_batches (fun d => d) 1000 2 lf_x lf_extra) = Some (lazy_eval (fun d => d) lf_x lf_extra).
+Proof. exact lazyfile_old_refuted. Qed.
+Print Assumptions C18_lazyfile_old_refuted.
+
+(* a LazyCall over an inner LazyCall shared with another object (copy / data_replace): [lazy_batches_shared fn mx bi bo]
+   iterates the inner data with batch size bi and splits the own extra entries with bo.  Since the repair the
+   iteration re-asserts its own batch size on the inner object (bi = bo): lazy = eager whatever the other object did *)
+Theorem C18_lazy_shared_eq_eager :
+  forall fn mx b n x extra, commutes fn ->
+    0 < b -> 0 < n -> uniform n x -> has_leaf x = true -> uniform n extra ->
+    merge_all (lazy_batches_shared fn mx b b x extra) = Some (lazy_eval fn x extra).
+Proof. exact lazy_shared_eq_eager. Qed.
+Print Assumptions C18_lazy_shared_eq_eager.
+(* before it bi was the batch size last set through ANY sharing object: events lost, weights misaligned *)
+Theorem C18_lazy_shared_inner_old_refuted :
+  commutes (fun d => d) /\ uniform 4 sh_x /\ uniform 4 sh_extra /\ has_leaf sh_x = true /\
+  merge_all (lazy_batches_shared (fun d => d) 1000 1 2 sh_x sh_extra) =
+    Some (Node KDict (FCons 0%Z (Leaf [1; 2]%Z) (FCons 1%Z (Leaf [11; 12; 13; 14]%Z) FNil))) /\
+  merge_all (lazy_batches_shared (fun d => d) 1000 1 2 sh_x sh_extra) <> Some (lazy_eval (fun d => d) sh_x sh_extra).
+Proof. exact lazy_shared_inner_old_refuted. Qed.
+Print Assumptions C18_lazy_shared_inner_old_refuted.
